@@ -140,7 +140,9 @@ def synth(rng: random.Random, layout: str = 'v20', *, compress: tuple = (), orig
     OVERLAY_SYSTEM_LEVELS, LEAFMINDISTTOWATER, LEAFFACES, LEAFBRUSHES, PRIMINDICES, PRIMVERTS, BRUSHSIDES, TEXDATA and
     TEXDATA_STRING_TABLE is all zero bytes (fade distances (0.0, 0.0), index 0, one texture name ...); 'default' =
     the values the reader substitutes for an absent lump (fades (-1.0, 0.0), levels 0, distance 65535); 'mixed' = the
-    first record zero, the others as usual; 'maxed' = all bits set where that is a legal value.
+    first record zero, the others as usual; 'maxed' = all bits set where that is a legal value; 'absent' = the
+    optional side lumps are not there at all (LEAFMINDISTTOWATER, OVERLAY_FADES, OVERLAY_SYSTEM_LEVELS empty: an older
+    compiler).
     `bad` makes lumps malformed so that looking at their view raises: 'sprp_version' (static props of the unknown
     version 14: the reader raises at once), 'sprp_size' (3 stray bytes: the reader raises after it looked at visleafs),
     'ents' (last entity not terminated), 'texinfo' (a texinfo naming a texdata that does not exist), 'dprp' (detail
@@ -369,6 +371,9 @@ def synth(rng: random.Random, layout: str = 'v20', *, compress: tuple = (), orig
         d['TEXINFO'] = d['TEXINFO'][:-4] + struct.pack('<i', 77)
     if 'overlays' in bad:
         d['OVERLAYS'] = d['OVERLAYS'][:-9]
+    if aux == 'absent':
+        for nm in ('LEAFMINDISTTOWATER', 'OVERLAY_FADES', 'OVERLAY_SYSTEM_LEVELS'):
+            d.pop(nm, None)
     games: list[tuple[bytes, int, int, bytes]] = [(b'sprp', 1 if 'sprp' in compress_game else 0, sp_ver, sp_data)]
     if extra_game:
         games.append((b'xtra', (1 if 'xtra' in compress_game else 0) | 0x4, 3, bytes(rng.randrange(256) for _ in range(77))))
